@@ -9,6 +9,7 @@ The harness never decides a numeric comparison; the residuals it computes are lo
 import collections
 import concurrent.futures as cf
 import contextlib
+import gc
 import io
 import json
 import math
@@ -26,6 +27,7 @@ from common import Fraction, Report, dyadic, rat, run_tlc, printed_values, valid
 TOLBITS = 30
 SELBITS = 20
 LB_APIS = ("lb", "panel_lb", "conecyl_lb")
+ARPACK_FAILURES = ("ArpackNoConvergence", "ArpackError")
 ACTIONS = {"ChooseK", "TrySparse", "RemoveNull", "TakeVW", "SolveReduced", "Scatter", "NegateInvert",
            "Sqrt", "Sort", "ReExpand", "Return"}
 FAMILY_ACTIONS = {"lb": ACTIONS - {"TakeVW", "Sqrt", "Sort", "ReExpand"},
@@ -423,22 +425,24 @@ def lattice_events(impl, family, tasks, nproc=8):
 
 
 def attach_peers(events):
-    """sparse <-> dense on the same matrices: each gets the other's values (path-agreement clause)"""
+    """sparse <-> dense on the same matrices: every sparse event gets the dense path's values (path-agreement
+    clause), provided the dense path is specified for this input (frequency family: same null pattern of K
+    and M, no zero-sum mass column - otherwise KF_C06_DenseColumnSum makes the dense result unspecified)"""
     groups = collections.defaultdict(list)
     for e in events:
         o = e["o"]
         if o["api"] in ("lb", "panel_lb", "freq", "panel_freq") and not o["reduced"] and e["obs"]["exc"] == "":
-            key = (e["gen"].get("group"), o["api"], o["sort"], json.dumps(e["p"]["s"]))
-            if e["gen"].get("group") is not None:
-                groups[key].append(e)
+            if e["gen"].get("group") is None or e["gen"].get("hist", "fresh") != "fresh":
+                continue
+            if o["api"] in ("freq", "panel_freq") and (e["p"]["zs"] or any(c in ("konly", "bonly") for c in e["p"]["cls"])):
+                continue
+            groups[(e["gen"]["group"], o["api"], o["sort"], json.dumps(e["p"]["s"]))].append(e)
     for key, es in groups.items():
-        sp = [e for e in es if e["o"]["sparse"]]
         de = [e for e in es if not e["o"]["sparse"]]
-        if sp and de:
-            d = de[0]
-            for s in sp:
-                s["obs"]["peer"] = d["obs"]["vals"][:25]
-            d["obs"]["peer"] = max(sp, key=lambda x: x["obs"]["nvals"])["obs"]["vals"][:25]
+        if de:
+            for x in es:
+                if x["o"]["sparse"]:
+                    x["obs"]["peer"] = de[0]["obs"]["vals"][:25]
 
 
 # ----------------------------------------------------------------------------------------
@@ -501,15 +505,99 @@ def panel_definition(rs, tier, family):
     return d
 
 
-def build_panel(d):
+def build_panel(d, uniform=True):
     from compmech.panel import Panel
     p = Panel()
-    for k in ("model", "m", "n", "a", "b", "r", "stack", "plyt", "laminaprop", "mu", "Nxx", "Nyy", "Nxy"):
-        setattr(p, k, d[k])
+    set_definition(p, d, uniform)
     p.alphadeg = 0.
     for k, v in d["flags"].items():
         setattr(p, k, v)
     return p
+
+
+PANEL_ATTRS = ("model", "m", "n", "a", "b", "r", "stack", "mu", "Nxx", "Nyy", "Nxy")
+
+
+def set_definition(p, d, uniform):
+    """uniform=True: the scalar plyt / laminaprop form of the package's tests (fresh objects only: Panel copies it
+    into plyts / laminaprops on first use and never looks at it again - reported separately, not a C05/C06
+    matter); uniform=False: the per-ply lists, which is what a redefinition on a used object has to set"""
+    for k in PANEL_ATTRS:
+        setattr(p, k, d[k])
+    if uniform:
+        p.plyt, p.laminaprop = d["plyt"], d["laminaprop"]
+    else:
+        p.plyts = [d["plyt"] for _ in d["stack"]]
+        p.laminaprops = [tuple(d["laminaprop"]) for _ in d["stack"]]
+HISTORIES = ("fresh", "redef:stack", "redef:plyt", "redef:geometry", "redef:loads", "redef:orders", "redef:material",
+             "kT", "wrapper:loads")
+
+
+def perturbed_definition(d, kind):
+    """another legitimate definition of the same model differing in ONE aspect (a parameter study on one object)"""
+    q = dict(d, flags=dict(d["flags"]))
+    if kind == "stack":
+        q["stack"] = [a + 15 for a in reversed(d["stack"])] + [60]
+    elif kind == "plyt":
+        q["plyt"] = d["plyt"] * 2
+    elif kind == "geometry":
+        q["a"], q["b"], q["r"] = d["a"] * 1.5, d["b"] * 0.75, d["r"] + 3.0
+    elif kind == "loads":
+        q["Nxx"], q["Nyy"], q["Nxy"] = d["Nxx"] * 3 - 1.0, d["Nyy"] + 2.0, d["Nxy"] - 1.0
+    elif kind == "orders":
+        q["m"], q["n"] = d["m"] + 1, max(3, d["n"] - 1)
+    elif kind == "material":
+        lp = d["laminaprop"]
+        q["laminaprop"] = (lp[0] * 0.5, lp[1] * 2, lp[2], lp[3] * 3, lp[4], lp[5])
+        q["mu"] = d["mu"] * 3
+    else:
+        raise ValueError(kind)
+    return q
+
+
+def panel_with_history(d, hist, api, o, hseed):
+    """a Panel object that currently holds definition d but has a past: the wrapper's result must be a
+    function of the current definition only (the judged answer is that of a fresh identical panel)"""
+    with contextlib.redirect_stdout(io.StringIO()), warnings.catch_warnings(), np.errstate(all="ignore"):
+        warnings.simplefilter("ignore")
+        if hist == "fresh":
+            return build_panel(d)
+        if hist.startswith("redef:"):
+            q = perturbed_definition(d, hist[6:])
+            p = build_panel(q, uniform=False)
+            try:            # the same request (and the matrix builders) under the other definition first
+                p.num_eigvalues = 3
+                if api == "panel_lb":
+                    p.lb(tol=0, sparse_solver=True, silent=True)
+                else:
+                    p.freq(atype=4, tol=0, sparse_solver=True, silent=True)
+                    p.calc_kG0(silent=True)
+            except Exception:
+                p.calc_k0(silent=True)
+                p.calc_kG0(silent=True)
+                p.calc_kM(silent=True)
+            set_definition(p, d, uniform=False)
+            return p
+        p = build_panel(d)
+        if hist == "kT":           # tangent matrices at a non-zero state (as a non-linear static run leaves them)
+            size = p.get_size()
+            c = 1e-3 * np.random.RandomState(hseed).randn(size)
+            p.calc_kT(c=c, silent=True)
+            return p
+        if hist == "wrapper:loads":  # a previous lb()/freq() with other loads on the same object
+            q = perturbed_definition(d, "loads")
+            for k in ("Nxx", "Nyy", "Nxy"):
+                setattr(p, k, q[k])
+            p.num_eigvalues = 4
+            try:
+                p.lb(tol=0, sparse_solver=bool(o["sparse"]), silent=True)
+                p.freq(atype=3, tol=0, sparse_solver=True, silent=True)
+            except Exception:
+                pass
+            for k in ("Nxx", "Nyy", "Nxy"):
+                setattr(p, k, d[k])
+            return p
+    raise ValueError(hist)
 
 
 def panel_matrices(d, family):
@@ -586,10 +674,11 @@ def strip(e):
 def describe(e):
     o = e["o"]
     cls = e["p"]["cls"]
-    return ("%s(sparse_solver=%s, num_eigvalues=%d%s) n=%d active=%d stiffness-only=%d -> %s [%s]"
+    return ("%s(sparse_solver=%s, num_eigvalues=%d%s) n=%d active=%d stiffness-only=%d load/mass-only=%d -> %s [%s]"
             % (o["api"], o["sparse"], o["num"],
                ", sort=%s, reduced_dof=%s" % (o["sort"], o["reduced"]) if o["api"] not in LB_APIS else "",
-               e["p"]["n"], sum(c != "null" for c in cls), sum(c == "konly" for c in cls),
+               e["p"]["n"], sum(c in ("both", "konly") for c in cls), sum(c == "konly" for c in cls),
+               sum(c == "bonly" for c in cls),
                (e["obs"]["exc"] + ": " + e["obs"].get("msg", "")) if e["obs"]["exc"] else
                "%d values, modes %dx%d" % (e["obs"]["nvals"], e["obs"]["nr"], e["obs"]["nc"]),
                json.dumps(e["gen"], default=str)[:300]))
@@ -647,7 +736,10 @@ def replay_file(prop, path, build):
     K, B = gen_matrices(gen)
     ev = rp["event"]
     prob = dict(n=ev["p"]["n"], cls=ev["p"]["cls"], sp=[from_rat(x) for x in ev["p"]["sp"]], s=from_rat(ev["p"]["s"]))
-    e = make_event(0, impl, prob, ev["o"], K, B, gen)
+    panel = None
+    if gen.get("hist") and gen["kind"] == "panel" and ev["o"]["api"].startswith("panel_"):
+        panel = panel_with_history(gen["def"], gen["hist"], ev["o"]["api"], ev["o"], gen.get("hseed", 0))
+    e = make_event(0, impl, prob, ev["o"], K, B, gen, panel=panel)
     if ev["obs"].get("peer"):
         e["obs"]["peer"] = ev["obs"]["peer"]
     verdicts, results, problems = validate_trace("ew-replay", "Trace_EigWrap", trace_cfg(), [strip(e)], nproc=1)
@@ -715,12 +807,21 @@ def run_family(prop, family, tier, seed, build, impl=None, skip_mc=False, max_la
         gid, pseed = pcache[key]
         tasks.append((len(tasks), prob, opts, pseed, gid))
         rep.nontrivial(("A", key, opts["api"], opts["sparse"], opts["num"], opts["sort"], opts["reduced"]))
-    events = lattice_events(impl, family, tasks)
+    excluded = collections.Counter()
+    events = []
+    for e in lattice_events(impl, family, tasks):
+        if e["obs"]["exc"] in ARPACK_FAILURES:
+            # e.g. eigs on a pencil whose mass matrix is singular (massless stiff amplitude) with ncv = N:
+            # "Could not build an Arnoldi factorization" - the solver contract is not met, nothing to judge
+            excluded["ARPACK broke down / did not converge (solver contract not met): %s" % e["obs"]["exc"]] += 1
+        else:
+            events.append(e)
+    next_id = [len(tasks)]
+    gc.freeze()       # the package calls gc.collect() in every matrix routine: keep the recorded events out of its reach
     n_lattice = len(events)
     t_a = time.time() - t0 - t_mc
 
     # ---- direction B: package models and seeded random pairs
-    excluded = collections.Counter()
     rs = np.random.RandomState(seed % (2 ** 31))
     nums = lambda: int(rs.randint(1, 26))
     npanel = 6 if tier == "quick" else 40
@@ -729,9 +830,6 @@ def run_family(prop, family, tier, seed, build, impl=None, skip_mc=False, max_la
 
     def add_group(K, B, gen, opts_list, panel_def=None):
         cls = classify(K, B)
-        if cls is None:
-            excluded["load/mass column on a stiffness-less amplitude"] += 1
-            return
         try:
             sp = reference_spectrum(K, B, cls)
         except np.linalg.LinAlgError:
@@ -746,23 +844,35 @@ def run_family(prop, family, tier, seed, build, impl=None, skip_mc=False, max_la
         if family == "lb" and any(abs(float(x) * sc + 1.0) < 1e-6 for x in sp for sc in (1, 2, 0.5)):
             excluded["reference load within 1e-6 of critical (Cayley Ritz value 0, ARPACK purification divides by it)"] += 1
             return
-        if family == "freq" and (any(c == "konly" for c in cls) or min(sp) <= 0):
-            excluded["mass matrix not positive definite on the active amplitudes"] += 1
+        if family == "freq" and min(sp) < 0:
+            excluded["mass matrix not positive semi-definite on the active amplitudes"] += 1
             return
         for o in opts_list:
             for s in o.pop("scales", [Fraction(1)]):
                 prob = dict(n=K.shape[0], cls=cls, sp=sp, s=s)
                 g = dict(gen, scale=float(s), group="%s-s%s" % (gen["group"], s))
                 panel = None
+                g["form"] = FORMS[len(events) % 3]
                 if o["api"].startswith("panel_") and panel_def is not None:
                     if s != 1:
                         continue
-                    panel = build_panel(panel_def)      # the real Panel builds its own matrices
-                e = make_event(len(events), impl, prob, dict(o), K, B * float(s), g, panel=panel)
-                if e["obs"]["exc"] in ("ArpackNoConvergence", "ArpackError"):
-                    excluded["ARPACK did not converge (solver contract not met)"] += 1
+                    # the real Panel builds its own matrices - on an object with a past (history before the call)
+                    g["hist"] = o.pop("hist", "fresh")
+                    g["hseed"] = int(rs.randint(0, 2 ** 31 - 1))
+                    try:
+                        panel = panel_with_history(panel_def, g["hist"], o["api"], o, g["hseed"])
+                    except Exception as ex:
+                        excluded["history %s not executable: %s" % (g["hist"], type(ex).__name__)] += 1
+                        continue
+                o.pop("hist", None)
+                next_id[0] += 1
+                e = make_event(next_id[0], impl, prob, dict(o), K, B * float(s), g, panel=panel)
+                if e["obs"]["exc"] in ARPACK_FAILURES:
+                    excluded["ARPACK broke down / did not converge (solver contract not met): %s" % e["obs"]["exc"]] += 1
                     continue
                 events.append(e)
+                if len(events) % 64 == 0:
+                    gc.freeze()
                 rep.nontrivial(("B", g["group"], o["api"], o["sparse"], o["num"], o["sort"], o["reduced"]))
 
     def opts_for(n, with_panel):
@@ -774,8 +884,11 @@ def run_family(prop, family, tier, seed, build, impl=None, skip_mc=False, max_la
             out.append(dict(api="lb", sparse=False, num=min(k1, 3), sort=False, reduced=False, pos=0, scales=[Fraction(1)]))
             out.append(dict(api="lb", sparse=True, num=nums(), sort=False, reduced=False, pos=0, scales=[Fraction(1)]))
             if with_panel:
-                out.append(dict(api="panel_lb", sparse=True, num=nums(), sort=False, reduced=False, pos=0))
-                out.append(dict(api="panel_lb", sparse=False, num=nums(), sort=False, reduced=False, pos=0))
+                hs = [HISTORIES[int(rs.randint(0, len(HISTORIES)))] for _ in range(3)]
+                out.append(dict(api="panel_lb", sparse=True, num=nums(), sort=False, reduced=False, pos=0, hist="fresh"))
+                out.append(dict(api="panel_lb", sparse=True, num=nums(), sort=False, reduced=False, pos=0, hist=hs[0]))
+                out.append(dict(api="panel_lb", sparse=True, num=nums(), sort=False, reduced=False, pos=0, hist=hs[1]))
+                out.append(dict(api="panel_lb", sparse=False, num=nums(), sort=False, reduced=False, pos=0, hist=hs[2]))
             else:
                 out.append(dict(api="conecyl_lb", sparse=True, num=nums(), sort=False, reduced=False, pos=3))
         else:
@@ -786,8 +899,10 @@ def run_family(prop, family, tier, seed, build, impl=None, skip_mc=False, max_la
             out.append(dict(api="freq", sparse=False, num=nums(), sort=False, reduced=False, pos=0))
             out.append(dict(api="freq", sparse=False, num=nums(), sort=True, reduced=True, pos=0))
             if with_panel:
-                out.append(dict(api="panel_freq", sparse=True, num=nums(), sort=True, reduced=False, pos=0))
-                out.append(dict(api="panel_freq", sparse=False, num=nums(), sort=True, reduced=False, pos=0))
+                hs = [HISTORIES[int(rs.randint(0, len(HISTORIES)))] for _ in range(2)]
+                out.append(dict(api="panel_freq", sparse=True, num=nums(), sort=True, reduced=False, pos=0, hist="fresh"))
+                out.append(dict(api="panel_freq", sparse=True, num=nums(), sort=True, reduced=False, pos=0, hist=hs[0]))
+                out.append(dict(api="panel_freq", sparse=False, num=nums(), sort=True, reduced=False, pos=0, hist=hs[1]))
         return out
 
     for j in range(npanel):
@@ -805,14 +920,19 @@ def run_family(prop, family, tier, seed, build, impl=None, skip_mc=False, max_la
     if tier == "thorough":
         sizes += [400, 399, 250]
     for j, n in enumerate(sizes):
-        nnull = int(rs.randint(0, max(1, n // 3))) if rs.rand() < 0.7 else 0
+        # null pattern of B relative to K's: equal / subset (B null on stiff amplitudes) / superset (B on
+        # stiffness-less amplitudes) / neither
+        pattern = ("equal", "subset", "superset", "neither")[j % 4]
+        nnull = int(rs.randint(1 if pattern in ("superset", "neither") else 0, max(2, n // 3))) if (
+            rs.rand() < 0.7 or pattern in ("superset", "neither")) else 0
         m = n - nnull
-        nkonly = int(rs.randint(0, max(1, m // 2))) if (family == "lb" and rs.rand() < 0.6 and m > 4) else 0
+        nkonly = int(rs.randint(1, max(2, m // 2))) if (pattern in ("subset", "neither") and m > 4) else 0
+        nbonly = int(rs.randint(1, nnull + 1)) if pattern in ("superset", "neither") else 0
         regime = bool(rs.rand() < 0.7)
         rseed = int(rs.randint(0, 2 ** 31 - 1))
-        K, B = random_pair(np.random.RandomState(rseed), family, n, nnull, nkonly, regime)
+        K, B = random_pair(np.random.RandomState(rseed), family, n, nnull, nkonly, regime, nbonly)
         add_group(K, B, dict(kind="random", family=family, group="R%d" % j, rseed=rseed, n=n, nnull=nnull,
-                             nkonly=nkonly, regime=regime), opts_for(n, False))
+                             nkonly=nkonly, nbonly=nbonly, regime=regime), opts_for(n, False))
     attach_peers(events)
     t_b = time.time() - t0 - t_mc - t_a
 
@@ -845,4 +965,5 @@ def run_family(prop, family, tier, seed, build, impl=None, skip_mc=False, max_la
         "builders (calc_k0, calc_kG0, calc_kM, _calc_linear_matrices); Panel.* additionally from real panel definitions",
         "ARPACK non-convergence is outside the contract: such calls are counted under excluded_inputs, not judged",
     ]
+    gc.unfreeze()
     return rep.finish()
